@@ -107,9 +107,10 @@ func c14Alphabet(s *sessSys) []sessReq {
 	if cur != nil && cur.OHCIP != "" {
 		tuns = append(tuns, tun{cur.OHCIP, cur.OHCTEID}) // unchanged tunnel
 	}
+	mixed := u8(0x07) // SNDEM together with DROBU and QAURR: the flag is a bit, not the octet's value
 	for ti, tn := range tuns {
-		for fi, fl := range []*uint8{flagOn, flagOff, nil, otherBits} {
-			if fi >= 2 && ti != 0 {
+		for fi, fl := range []*uint8{flagOn, flagOff, mixed, nil, otherBits} {
+			if fi >= 3 && ti != 0 {
 				continue
 			}
 			add(fmt.Sprintf("ufar2-t%d-f%d", ti, fi), sessReq{sReq: sReq{Kind: kMod, Conn: 0, UpdateFAR: []sFAR{mkU(2, tn.peer, tn.teid, fl)}}, Sess: 0})
@@ -229,7 +230,7 @@ func TestVerifC14(t *testing.T) {
 	vQuietLoggers()
 	res := vNewResult()
 	defer res.write(t)
-	res.Rule = "BFS over chains (depth 5 quick / 6 thorough incl. association and establishment) of Session Modifications with 1-2 Update FARs over flag {SNDEM, 0, absent, other bits} x " +
+	res.Rule = "BFS over chains (depth 5 quick / 6 thorough incl. association and establishment) of Session Modifications with 1-2 Update FARs over flag {SNDEM, 0, SNDEM together with other bits, absent, other bits} x " +
 		"tunnel {peer A, peer B, unchanged} x FAR {known, unknown, second downlink FAR} on sessions established with 2 peers x 2 TEIDs, plus buffer updates, creations with the flag and " +
 		"unknown sessions; end markers enabled and disabled; packets taken from the plug-in's end-marker sink and decoded. distinct_nontrivial = distinct canonical states reached"
 	res.Assumptions = []string{"BESS: packets are observed on the channel that feeds the unixpacket socket (endMarkerSendLoop only copies them)", "an update of a rule that had no tunnel before is not constrained by the statement"}
